@@ -250,6 +250,18 @@ pub fn long_lens(thorough: bool, seed: u64) -> Vec<usize> {
 }
 
 /// long lengths: around powers of two (where fast paths and block algorithms switch) and uniform
+/// `long_lens` plus lengths whose packed size is just above 2^18 bits (32 KiB, 4096 words) for a codec
+/// of the given width: the block and buffer sizes of bulk paths are usually stated in bits or bytes
+pub fn long_lens_bits(bits: usize, thorough: bool, seed: u64) -> Vec<usize> {
+    let mut v = long_lens(thorough, seed);
+    v.push((1usize << 18) / bits + 1 + (seed % 3) as usize);
+    if thorough {
+        v.push((1usize << 19) / bits + 2);
+        v.push((1usize << 20) / bits + 1);
+    }
+    v
+}
+
 pub fn long_len(thorough: bool) -> BoxedStrategy<usize> {
     let top = if thorough { 16 } else { 14 };
     let mut around = vec![];
